@@ -257,6 +257,14 @@ pub fn build(quick: bool) -> Vec<Scenario> {
         v.push(sc(format!("co.park.k2.w{}.co_unparker", w), move |e| co_park(e, w, 2, 0, true, false)).bound(d).deepen(dmax, budget));
         v.push(sc(format!("co.park_timeout10.k2.w{}", w), move |e| co_park(e, w, 2, 10, false, false)).t2().bound(d).deepen(dmax, budget));
     }
+    // the timer is the third party that resumes a parked coroutine: its own wake-up hand-shake (an adder that becomes the
+    // head of a list wakes the timer thread, which registers its handle, looks at the lists and goes to sleep) is driven
+    // on the real TimerThread (the component family of C08), here for the members in which an add races with the
+    // timer thread's scan / registration
+    for adders in [&["22"][..], &["2", "2"], &["2", "s2"]] {
+        let adders: &'static [&'static str] = adders;
+        v.push(Scenario::new("C02", "timer_waker", format!("timer_waker.timerlist.{}", adders.join("_")), Arc::new(move |e| super::c08::timer_list(e, adders))).fine().t2().vt_horizon(100_000_000).tier(quick));
+    }
     for w in [1usize, 2] {
         v.push(sc(format!("co.park.detached.w{}", w), move |e| detached_parker(e, w, false, 1)).bound(d));
         v.push(sc(format!("co.park.detached.twice.w{}", w), move |e| detached_parker(e, w, false, 2)).bound(d));
